@@ -118,7 +118,7 @@ func codeForEnum(typ *an.Enum) gen.Declaration {
 		// trim a xxx_ suffix
 		vName := lowerFirst(v.Const.Name())
 		_, after, found := strings.Cut(vName, "_")
-		if found {
+		if found && after != "" { // keep names like X_ : nothing follows the separator
 			vName = after
 		}
 		names = append(names, lowerFirst(vName))
